@@ -33,6 +33,7 @@ type Result struct {
 	Probes       map[string]int64
 	Trace        []string
 	Note         string
+	LeakedAt     []string
 }
 
 func NewResult() *Result { return &Result{Faults: map[string]int64{}, Probes: map[string]int64{}} }
@@ -55,6 +56,7 @@ func (r *Result) Absorb(out simrt.Outcome) {
 	}
 	if out.Leaked > 0 {
 		r.Probes["leaked_goroutines"] += int64(out.Leaked)
+		r.LeakedAt = out.LeakedAt
 	}
 	if r.V != nil {
 		return
@@ -202,6 +204,9 @@ func Main[C any](t *testing.T, spec Spec[C]) {
 				v = r.V.Signature + ": " + clip(r.V.Detail, 1500)
 			}
 			fmt.Fprintf(os.Stderr, "run %d: hash=%x steps=%d vt=%v violation=%s\n", i, r.SchedHash, r.Steps, time.Duration(r.VirtualNs), v)
+			if len(r.LeakedAt) > 0 {
+				fmt.Fprintf(os.Stderr, "  leaked: %s\n", strings.Join(r.LeakedAt, " | "))
+			}
 			if Verbose {
 				os.WriteFile(fmt.Sprintf("/tmp/kevosim-trace-%d.txt", i), []byte(strings.Join(r.Trace, "\n")), 0644)
 			}
